@@ -1,5 +1,6 @@
 """C05 Reference counts / GC — structural clause: edge linearity (E-LIN)."""
 import ecanon
+import efreelist
 import elin
 
 LEVEL = "E-LIN edge linearity over all bodies"
@@ -21,5 +22,9 @@ def run(ctx):
         st = elin.run(ctx, Fp, rule="E-LIN[ptr]")
         ctx.floor("E-LIN[ptr]", "function bodies analysed", st["bodies"], 2000)
     ecanon.check_level_swap_order(ctx, F)
+    ctx.explain("E-FREELIST: thread-local free lists / node-count deltas are handed to the shared store state only by "
+                "moving them out of their Cell (replace(.., 0)). E-CANON.swap: level_swap releases edges to an old child "
+                "before unlinking it.")
+    efreelist.run(ctx, F)
     ctx.not_decided = ("exactness of counts over histories; the unsafe internals of the managers; "
                        "capacity restoration after gc")
